@@ -13,6 +13,41 @@ GREEKS = ["european_gamma", "european_vega", "european_theta", "binary_gamma(cal
 AUTOGRAD = ["lookback_delta", "lookback_gamma", "lookback_vega", "lookback_theta"]
 
 
+def call_positional(name, s, m, t, v, K):
+    """The same calls with every argument given by position, in the order the documentation of the pinned release lists them
+    (``bs_european_price(log_moneyness, time_to_maturity, volatility, strike=1.0, call=True)``, the binary forms
+    ``(..., call=True, strike=1.0)``, the path-dependent forms ``(log_moneyness, max_log_moneyness, time_to_maturity,
+    volatility, strike)``).  This table is part of the oracle: it is not read from the code under test."""
+    import pfhedge.nn.functional as F
+
+    return {
+        "european_price(call)": lambda: F.bs_european_price(s, t, v, K),
+        "european_price(put)": lambda: F.bs_european_price(s, t, v, K, False),
+        "binary_price(call)": lambda: F.bs_european_binary_price(s, t, v, True),
+        "binary_price(put)": lambda: F.bs_european_binary_price(s, t, v, False),
+        "american_binary_price": lambda: F.bs_american_binary_price(s, m, t, v),
+        "lookback_price": lambda: F.bs_lookback_price(s, m, t, v, K),
+        "european_delta(call)": lambda: F.bs_european_delta(s, t, v, True),
+        "european_delta(put)": lambda: F.bs_european_delta(s, t, v, False),
+        "binary_delta(call)": lambda: F.bs_european_binary_delta(s, t, v, True, K),
+        "binary_delta(put)": lambda: F.bs_european_binary_delta(s, t, v, False, K),
+        "american_binary_delta": lambda: F.bs_american_binary_delta(s, m, t, v, K),
+        "european_gamma": lambda: F.bs_european_gamma(s, t, v, K),
+        "european_vega": lambda: F.bs_european_vega(s, t, v, K),
+        "european_theta": lambda: F.bs_european_theta(s, t, v, K),
+        "binary_gamma(call)": lambda: F.bs_european_binary_gamma(s, t, v, True, K),
+        "binary_vega(call)": lambda: F.bs_european_binary_vega(s, t, v, True, K),
+        "binary_theta(put)": lambda: F.bs_european_binary_theta(s, t, v, False, K),
+        "american_binary_gamma": lambda: F.bs_american_binary_gamma(s, m, t, v, K),
+        "american_binary_vega": lambda: F.bs_american_binary_vega(s, m, t, v, K),
+        "american_binary_theta": lambda: F.bs_american_binary_theta(s, m, t, v, K),
+        "lookback_delta": lambda: F.bs_lookback_delta(s.clone(), m, t, v, K),
+        "lookback_gamma": lambda: F.bs_lookback_gamma(s.clone(), m, t, v, K),
+        "lookback_vega": lambda: F.bs_lookback_vega(s.clone(), m, t, v, K),
+        "lookback_theta": lambda: F.bs_lookback_theta(s.clone(), m, t, v, K),
+    }[name]()
+
+
 def call(name, s, m, t, v, K):
     import pfhedge.nn.functional as F
 
@@ -86,6 +121,11 @@ def check_batch(case, ctx, names, prefix, skip=None):
         if not ctx.check(tuple(got.shape) == shape, prefix + "/batch/shape", f"{name}: output shape {tuple(got.shape)} for arguments of shape {shape}"):
             continue
         got = got.detach().reshape(-1)
+        # the documented positional form is the same function of the same arguments
+        with ctx.sut(prefix + "/batch/" + name):
+            pos = call_positional(name, S, M, T_, V, K).detach().reshape(-1)
+        ctx.check(pos.shape == got.shape and bool(((pos == got) | (pos.isnan() & got.isnan())).all()), prefix + "/positional-arguments",
+                  f"{name}: the call with positional arguments (documented order) differs from the call with keywords (K={K})", fn=name)
         for i in range(n):
             if skip is not None and skip(name, pts[i], case["dtype"]):
                 ctx.exclude("known-finding-region")
